@@ -719,3 +719,61 @@ def n_r8_cookies(p: Project, rep: Report):
                 rep.check("N-R8", f"post_request:{text(s.func)}:jar-on-sending-object", True, "", loc(p, s))
             else:
                 rep.note(f"N-R8 undecided: could not connect self.cookiejar to the object behind {text(s.func)}")
+
+
+def n_r9_constructor_params(p: Project, rep: Report):
+    """every constructor argument of the client is kept under its own name"""
+    from .fold import fold
+    from .source import UNK
+
+    rep.rule("N-R9", "what the client is configured with is what it uses: every parameter of OFXClient.__init__ is stored on the instance under its own name - directly (`self.x = x`), or by a setattr loop whose names are a constant table (`locals()[name]`) or the keys of a dict display whose values are the like-named parameters.  A parameter that is accepted and never stored (e.g. useragent) silently falls back to the class default")
+    ci = client_class(p)
+    fn = ci.own_func("__init__")
+    if fn is None:
+        raise AnalysisError("OFXClient.__init__ not found")
+    params = [a for a in params_of(fn)[1:]]
+    stored: Set[str] = set()
+    unknown = False
+    for st in own_statements(fn):
+        if isinstance(st, (ast.Assign, ast.AnnAssign)):
+            t = st.targets[0] if isinstance(st, ast.Assign) else st.target
+            if isinstance(t, ast.Attribute) and text(t.value) == "self" and st.value is not None:
+                if any(isinstance(x, ast.Name) and x.id == t.attr for x in ast.walk(st.value)):
+                    stored.add(t.attr)
+    defs = local_defs(fn)
+    for lp in [x for x in ast.walk(fn) if isinstance(x, ast.For)]:
+        sets = [c for c in ast.walk(lp) if isinstance(c, ast.Call) and isinstance(c.func, ast.Name) and c.func.id == "setattr" and len(c.args) == 3 and text(c.args[0]) == "self"]
+        if not sets:
+            continue
+        it = lp.iter
+        if isinstance(it, ast.Name) and len(defs.get(it.id, [])) == 1 and isinstance(defs[it.id][0].value, ast.AST):
+            it = defs[it.id][0].value
+        names = None
+        # for name in ["a", "b", ...]: value = locals()[name]
+        v = fold(it, {}, p, CLIENT)
+        if isinstance(v, (tuple, list)) and all(isinstance(x, str) for x in v) and isinstance(lp.target, ast.Name):
+            uses_locals = any(isinstance(c, ast.Subscript) and isinstance(c.value, ast.Call) and text(c.value.func) == "locals" and text(c.slice) == lp.target.id for c in ast.walk(lp))
+            if uses_locals and all(text(c.args[1]) == lp.target.id for c in sets):
+                names = set(v)
+        # for name, value in dict(a=a, ...).items()  /  {"a": a, ...}.items()
+        if names is None and isinstance(it, ast.Call) and isinstance(it.func, ast.Attribute) and it.func.attr == "items":
+            d = it.func.value
+            if isinstance(d, ast.Name) and len(defs.get(d.id, [])) == 1 and isinstance(defs[d.id][0].value, ast.AST):
+                d = defs[d.id][0].value
+            pairs = None
+            if isinstance(d, ast.Call) and text(d.func) == "dict" and not d.args:
+                pairs = [(k.arg, k.value) for k in d.keywords if k.arg]
+            elif isinstance(d, ast.Dict):
+                pairs = [(k.value, v_) for k, v_ in zip(d.keys, d.values) if isinstance(k, ast.Constant)]
+            if pairs is not None:
+                names = {k for k, v_ in pairs if isinstance(v_, ast.Name) and v_.id == k}
+        if names is None:
+            unknown = True
+        else:
+            stored |= names
+    missing = [x for x in params if x not in stored]
+    if unknown and missing:
+        rep.note(f"N-R9 undecided: constructor stores attributes through an unrecognised loop; not seen stored: {missing}")
+        return
+    for x in params:
+        rep.check("N-R9", f"__init__:{x}:stored", x in stored, f"the constructor accepts `{x}` and never stores it: the client keeps the class default whatever it was configured with" if x not in stored else "", loc(p, fn))
